@@ -45,11 +45,16 @@ class UiSim:
         self.sigver = None
         self.sigs = []
 
+    reject_version = None      # status word answered to the signer-version message (e.g. 0x6a03)
+
     def __call__(self, apdu):
         if apdu[1] != 0x51:
             return ("S", 0x6D00)
         if apdu[2] == 1:
             self.sigver = bytes(apdu[3:])
+            if self.reject_version is not None:
+                self.threshold = None
+                return ("S", self.reject_version)
             return ("D", bytes([0x80, 0x51, 0x01]))
         self.sigs.append(bytes(apdu[3:]))
         self.count += 1
@@ -58,9 +63,10 @@ class UiSim:
 
 
 def py_int(x):
+    """what Python's int() reads from a decimal string, or from a hexadecimal one after 0x (the
+    interpreter's own parser is the oracle; the repository's helper is not consulted)"""
     try:
-        from comm.utils import hex_or_decimal_string_to_int
-        return hex_or_decimal_string_to_int(x)
+        return int(x, 16) if x.startswith("0x") else int(x, 10)
     except ValueError:
         return None
 
@@ -75,12 +81,13 @@ def der_ok(x):
 
 
 ITERATIONS = [0, 1, 5, 32767, 32768, 65535, -1, 65536, 2 ** 40, "10", "0x1f", " 7 ", "1_0", "٣", "0X10", "abc", "", "-0",
-              "+5", "65536", "0x10000", 5.0, True, None, [1]]
+              "+5", "65536", "0x10000", 5.0, True, None, [1],
+              "0o17", "0O17", "0b101", "0B1", "007", "0123", "0x", "0x0_1", "1e3"]
 
 
 def run(ctx):
     from admin.signer_authorization import SignerAuthorization, SignerVersion
-    from ledger.hsm2dongle import HSM2Dongle, HSM2DongleError
+    from ledger.hsm2dongle import HSM2Dongle, HSM2DongleError, HSM2DongleBaseError
     import signapp
     rng = ctx["rng"]
     res = {"evaluations": 0, "compared": 0, "distinct": 0, "mismatches": [], "violations": [],
@@ -93,6 +100,8 @@ def run(ctx):
     docs = []
     for _ in range(reps):
         hb = gen.rbytes(rng, 32)
+        if _ % 2 == 1:
+            hb = bytes([0, rng.randrange(16)]) + hb[2:]          # leading zero nibbles
         hashes = [hb.hex(), hb.hex().upper(), " ".join(hb.hex()[i:i + 2] for i in range(0, 64, 2)),
                   hb.hex()[:-2], hb.hex() + "00", "zz" * 32, 5, None, hb.hex()[:-1] + "g"]
         key = certs.K1Key(rng)
@@ -180,14 +189,17 @@ def run(ctx):
         # the authorize exchange
         thr = rng.choice([None, 1, 2, len(loaded[2]), len(loaded[2]) + 1, 0]) if loaded[2] else rng.choice([None, 1])
         ui = UiSim(thr if thr != 0 else None)
+        if rng.random() < 0.15:
+            # the UI refuses the signer version outright (iteration not newer than the current one, ...)
+            ui.reject_version = rng.choice([0x6A03, 0x6A01, 0x6A02])
         world = env.World(device=ui)
         env.install_transport(world)
         dongle = HSM2Dongle(False)
         dongle.dongle = env.FakeDongle(world)
         try:
             ok = dongle.authorize_signer(sa) is True
-        except HSM2DongleError:
-            ok = False
+        except HSM2DongleBaseError:
+            ok = False           # the command failed (device error result, link error, ...)
         except BaseException as e:
             ok = False
             res["violations"].append({"key": "C17:authorize-raises:%s" % type(e).__name__,
@@ -199,6 +211,8 @@ def run(ctx):
         want_ok = k is not None and k <= len(loaded[2])
         want_apdus = [bytes([0x80, 0x51, 0x01]) + hb + n.to_bytes(2, "big")] + \
             [bytes([0x80, 0x51, 0x02]) + bytes.fromhex(sg) for sg in loaded[2][:(k if want_ok else len(loaded[2]))]]
+        if ui.reject_version is not None:
+            want_ok, want_apdus = False, want_apdus[:1]
         if ok != want_ok or apdus != want_apdus:
             res["violations"].append({"key": "C17:authorize-trace", "what": "authorize sent %d APDUs / result %s; "
                                       "expected hash+iteration then signatures in file order until the device "
